@@ -29,12 +29,17 @@ RefFrom(fs, i, open, z, msgs, deflate) ==
   ELSE
     LET kind == IF f.op = OpCont THEN open ELSE IF f.op = OpText THEN "text" ELSE "bin"
         zz   == IF f.op = OpCont THEN z ELSE f.rsv1 = 1
-        textbad == /\ kind = "text" /\ ~zz /\ PVIsSmall(f.acc)
-                   /\ IF f.fin = 1 THEN ~WellFormed(f.acc.s) ELSE FirstDeadByte(f.acc.s) # 0
+        \* a compressed message written by the harness' RFC 7692 peer: `orig` is the application payload it compressed
+        zo   == zz /\ "zorig" \in DOMAIN f /\ f.zorig
+        mpl  == IF zo THEN f.orig ELSE f.acc
+        textbad == /\ kind = "text"
+                   /\ IF zz THEN zo /\ f.fin = 1 /\ PVIsSmall(f.orig) /\ ~WellFormed(f.orig.s)     \* known once inflated
+                      \* (on a connection with permessage-deflate the client judges every text message when it is complete)
+                      ELSE PVIsSmall(f.acc) /\ (IF f.fin = 1 THEN ~WellFormed(f.acc.s) ELSE ~deflate /\ FirstDeadByte(f.acc.s) # 0)
     IN IF textbad THEN Res(msgs, i, "invalid_utf8", open)
        ELSE IF f.fin = 1
        THEN RefFrom(fs, i + 1, "none", FALSE,
-                    Append(msgs, [op |-> IF kind = "text" THEN OpText ELSE OpBin, pl |-> f.acc, at |-> i, z |-> zz]), deflate)
+                    Append(msgs, [op |-> IF kind = "text" THEN OpText ELSE OpBin, pl |-> mpl, at |-> i, z |-> zz /\ ~zo]), deflate)
        ELSE RefFrom(fs, i + 1, kind, zz, msgs, deflate)
 
 \* [msgs, viol (index of the first violating frame, 0 if none), why, open]
